@@ -1,0 +1,11 @@
+//go:build verif
+
+package todo
+
+// Contracts checked by /verif (vcgo). Comment-only: no executable code.
+
+// the extension filter of `coca todo`: a file is scanned iff its name ends with one of the selected extensions
+//@ closure TodoApp.AnalysisPath$1
+//@ requires filters != nil
+//@ ensures result <==> (exists i int :: 0 <= i && i < len(*filters) && HasSuffix(path, (*filters)[i]))
+//@ loop 1 invariant forall j int :: 0 <= j && j < #i ==> !HasSuffix(path, (*filters)[j])
